@@ -118,6 +118,42 @@ theorem C21_discard (s : Sys) (hc : s.crashed = false) :
   | none => simp [hb, bufData, Pipe.hasData]
   | some fb => simp [hb, bufData, Pipe.hasData, FB.reset, FB.len]
 
+/-- the code installed by CloseWithErrorAndCode runs only together with a close-error return (never
+    with data, never with a break error) and is forgotten afterwards: it runs at most once -/
+theorem C21_readfn_once (p : Pipe) (n : Nat) (e : Err) (h : (p.readTry n).2 = .err e true) :
+    p.breakErr = none ∧ p.err = some e ∧ p.readFn = true ∧ (p.readTry n).1.readFn = false := by
+  rcases readTry_cases p n with ⟨e', hb, hr⟩ | ⟨fb, hb, hbuf, hl, hr⟩ | ⟨e', hb, hd, he, hr⟩ | ⟨hq, hr⟩ <;>
+    rw [hr] at h ⊢ <;> simp at h
+  exact ⟨hb, by rw [he, h.1], h.2, rfl⟩
+
+/-- **FixedBuffer is a bounded FIFO**: every exported operation (Write with its slide, Read, Reset) on a
+    well-formed buffer is exactly one step of the specification queue of capacity `cap` — same content,
+    same returned count / `full` flag / data / `errReadEmpty`; in particular the whole free space is
+    usable whatever `r` and `w` are. -/
+theorem C21_fixedbuffer_refines (b : FB) (op : FOp) (h : b.wf) :
+    (b.step op).1.wf ∧ (b.step op).1.cap = b.cap ∧
+      ((b.step op).1.data, (b.step op).2) = qStep b.cap b.data op :=
+  fb_step_refines b op h
+
+/-! ### several readers on one pipe (outside the design, which has one reader per body) -/
+
+/-- **conservation with any number of readers**: in every schedule every accepted byte is still in the
+    buffer, was dropped explicitly, or was returned by exactly one Read of exactly one reader, and the
+    concatenation of all returned pieces in completion order is the delivered part of the stream. -/
+theorem C21_multi_reader_fifo (cap k : Nat) (acts : List MAct) :
+    let s := (MSys.init cap k).exec acts
+    s.accepted = gone s.ledger ++ bufData s.p.b ∧ (s.order.map Prod.snd).flatten = kept s.ledger :=
+  have h := minv_exec _ acts (minv_init cap k)
+  ⟨h.fifo, h.order⟩
+
+/-- what does NOT hold with two readers: `Signal` wakes one waiter, so after a two-byte write one reader
+    takes a byte and returns while the other stays parked although a byte is buffered
+    (`C21_no_lost_wakeup` needs the single-reader assumption) -/
+theorem C21_witness_two_readers :
+    let s := (MSys.init 4 2).exec [.startRead 0 1, .readerStep 0, .startRead 1 1, .readerStep 1,
+      .write [1, 2], .readerStep 0]
+    s.rds = [.idle, .waiting 1] ∧ s.waitq = [1] ∧ bufData s.p.b = [2] ∧ s.order = [(0, [1])] := by decide
+
 /-! ### lifecycles: successive pipes over a shared buffer pool -/
 
 /-- **a released buffer re-enters the pool empty**, in every lifecycle -/
